@@ -90,6 +90,20 @@ def run(R, tier, seed, driver_ok):
             store['A0'] = np.array(out, copy=True)
             return out
         mm._initialize_metric_mahalanobis = spy
+        # per-cycle observables of the full-matrix loop: the two objective evaluations (at A_old, then at the projected A)
+        # and whether the accept branch ran (it is the only caller of _fS1 inside the loop)
+        fd_calls, fs1_marks = [], []
+        o_fd, o_fs1 = mm._BaseMMC._fD, mm._BaseMMC._fS1
+
+        def spy_fd(self_, neg_, A_):
+            v = o_fd(self_, neg_, A_)
+            fd_calls.append((np.array(A_, copy=True), float(v)))
+            return v
+
+        def spy_fs1(self_, pos_, A_):
+            fs1_marks.append(len(fd_calls))
+            return o_fs1(self_, pos_, A_)
+        mm._BaseMMC._fD = spy_fd; mm._BaseMMC._fS1 = spy_fs1
         outcome = 'ok'
         buf = io.StringIO()
         try:
@@ -110,6 +124,7 @@ def run(R, tier, seed, driver_ok):
             outcome = type(e).__name__
         finally:
             mm._initialize_metric_mahalanobis = orig
+            mm._BaseMMC._fD = o_fd; mm._BaseMMC._fS1 = o_fs1
         R.case(('c14', pairs.tobytes().hex()[:64], init_kind, diagonal, max_iter, tol, dc, supervised, max_proj), True,
                sample={'d': d, 'n_pairs': len(yy), 'init': init_kind, 'diagonal': diagonal, 'max_iter': max_iter, 'max_proj': max_proj, 'outcome': outcome},
                branch=f'{"diag" if diagonal else "full"}:{init_kind}' + (':small-max_proj' if special else ''))
@@ -153,6 +168,24 @@ def run(R, tier, seed, driver_ok):
             R.count('projection-not-converged-in-max_proj (outside the quantifier)')
         elif ssum > 1.01 * t * (1 + 1e-9) + 1e-300:
             R.violation('MMC/budget-exceeded', f'Σ_S d²_M = {ssum:.6g} exceeds 1.01·t = {1.01 * t:.6g} (init {init_kind})', case)
+        # --- the accept/shrink loop: the model's mmcCycles run on the observed (satisfy, obj(A_old), obj(A)) of every
+        #     cycle must name, after each cycle, the very iterate the implementation keeps as A_old
+        ncyc = len(fd_calls) // 2
+        if ncyc >= 1 and len(fd_calls) == 2 * ncyc:
+            wv = np.einsum('ij,ik->jk', S, S).ravel()
+            rows, proj_iter, olds_impl = [], [], []
+            for c in range(ncyc):
+                (Aold_c, objprev_c), (A_c, obj_c) = fd_calls[2 * c], fd_calls[2 * c + 1]
+                sat_c = bool((wv.dot(A_c.ravel()) - t) / t < 0.01)
+                rows += [1.0 if sat_c else 0.0, objprev_c, obj_c]
+                proj_iter.append(A_c)
+            # which iterate is A_old after cycle c: the A_old handed to _fD in cycle c+1, the returned A_ after the last
+            for c in range(ncyc):
+                nxt = fd_calls[2 * (c + 1)][0] if c + 1 < ncyc else np.asarray(est.A_)
+                ident = [2 * j + 1 for j in range(c + 1) if np.array_equal(proj_iter[j], nxt)]
+                olds_impl.append(ident[-1] if ident else (0 if np.array_equal(nxt, A0) else -1))
+            lines.append(f'mmc_loop {ncyc} ' + ' '.join(str(f2b(v)) for v in rows))
+            meta.append(('loop', olds_impl, 0, 'mmc_loop', dict(case, cycles=ncyc)))
         # --- twins of the helper functions on this instance
         lines.append(f'mmc_budget {d} {len(S)} {bits(S)} {bits(A0)} {bits(M)}')
         meta.append(('vec', np.array([t, ssum, 1.0 if (ssum - t) / t < 0.01 else 0.0]), 1e-10 * max(abs(t), abs(ssum)), 'mmc_budget', case))
@@ -176,6 +209,11 @@ def run(R, tier, seed, driver_ok):
     if driver_ok and lines:
         outs = lean_run(lines)
         for o, (kind, impl, tol, what, case) in zip(outs, meta):
+            if kind == 'loop':
+                got = o.split()[1:] if o.startswith('ok') else None
+                if got is None or [int(x) for x in got] != list(impl):
+                    R.broken('correspondence:C14:mmc_loop', f'the model loop keeps iterates {got} as A_old after the cycles, the implementation {impl} (2c+1 = projection of cycle c, 0 = initial matrix)', case)
+                continue
             v = parse_ok_floats(o)
             want = np.atleast_1d(np.asarray(impl, dtype=float))
             if v is None or v.size != want.size or not np.abs(v - want).max() <= tol + 1e-300:
